@@ -6,6 +6,7 @@
 
 mod bits_engine;
 mod comps;
+mod containers;
 mod query_engine;
 mod sched;
 mod sched_borrow;
@@ -66,6 +67,7 @@ fn main() {
                 Some("reserve") => world_engine::Profile::Reserve,
                 Some("batch") => world_engine::Profile::Batch,
                 Some("query") => world_engine::Profile::Query,
+                Some("containers") => world_engine::Profile::Containers,
                 _ => world_engine::Profile::Mixed,
             };
             let out = arg(&args, "--out").expect("--out DIR");
